@@ -176,6 +176,8 @@ def check_prog(prog, stats, executed_cap=400):
         except Exception as e:          # the generator only produces introspectable targets
             stats.cls('plain-retrieval-raised')
             return
+        if prog.get('decoys') == 1 and b.prime_with_failure():
+            stats.cls('retrieved-once-before-the-callees-existed')
         try:
             R = sigtools.signature(b.target)
         except Exception as e:
